@@ -10,7 +10,11 @@ import Heph.Model.Find
   `{ok, bad: [positions of results failing resultOK], self: is the query among the results}`;
 * `find.avail {tt, types, relevant, expect?}` → `available_types`, compared as a list;
 * `find.irrelevant {tt, B, any, etype, result?}` → `{ok, early, sub, sup, tcon}`;
-* `find.subd {tt, B, s, t}` → the declarative decider's answer. -/
+* `find.subd {tt, B, s, t}` → the declarative decider's answer;
+* `find.cand {tt, pvar, base, get_subtypes, ignore_variance, answers, call_types, call_dirs, expect}` →
+  `true` when the recorded nested `_find_types` calls are the model's `candidateCalls` and the recorded
+  result is `candidateArgs` of the recorded answers (as lists), else the details;
+* `find.irrparam {tt, con, type_args, choices, expect?}` → `true` when `irrelevantParam` == the recorded answer. -/
 open Lean Heph Heph.Ty Heph.Find
 namespace Driver.Find
 
@@ -99,6 +103,49 @@ def handle : Handler := fun op j =>
         ("sub", Json.bool (match r with | some x => subJ B x tgt | none => false)),
         ("sup", Json.bool (match r with | some x => subJ B tgt x | none => false)),
         ("tcon", Json.bool (match r with | some x => x.isTCon | none => false))])))
+  | "find.cand" => some (do
+      let tbl ← parseTable j
+      let base ← tyAt tbl j "base"
+      let pvar ← getNat j "pvar"
+      let gs := bflag j "get_subtypes"
+      let iv := bflag j "ignore_variance"
+      let answers ← match j.getObjVal? "answers" with
+        | .ok (Json.arr a) => a.toList.mapM (idxList tbl)
+        | _ => throw "answers missing"
+      -- the recorded answers are handed to the model in the order of the MODEL's calls
+      let hasSelf := (candDirSelf pvar gs iv).isSome
+      let selfAns := if hasSelf then answers.headD [] else []
+      let projAns := if hasSelf then (answers.drop 1).headD [] else answers.headD []
+      let callTys ← tyListAt tbl j "call_types"
+      let callDirs := match j.getObjVal? "call_dirs" with
+        | .ok (Json.arr a) => a.toList.map fun x => match x with | Json.bool b => b | _ => false
+        | _ => []
+      let exp ← tyListAt tbl j "expect"
+      let mc := candidateCalls pvar base gs iv
+      let callsOk := listEq (mc.map (·.1)) callTys && mc.map (·.2) == callDirs && answers.length == mc.length
+      let r := candidateArgs pvar base gs iv selfAns projAns
+      if callsOk && listEq r exp then pure (res (Json.bool true))
+      else pure (res (Json.mkObj [
+        ("calls_ok", Json.bool callsOk),
+        ("model_calls", Json.arr (mc.toArray.map fun c => Json.mkObj [("etype", Json.str (getName c.1)), ("get_subtypes", Json.bool c.2)])),
+        ("result_ok", Json.bool (listEq r exp)),
+        ("model", Json.arr (r.toArray.map fun t => Json.str (getName t)))])))
+  | "find.irrparam" => some (do
+      let tbl ← parseTable j
+      let con ← tyAt tbl j "con"
+      let typeArgs ← tyListAt tbl j "type_args"
+      let chs ← match j.getObjVal? "choices" with
+        | .ok (Json.arr a) => a.toList.mapM (idxOpt tbl)
+        | _ => throw "choices missing"
+      let exp ← tyOptAt tbl j "expect"
+      let r := irrelevantParam con typeArgs chs
+      let same := match r, exp with
+        | none, none => true
+        | some (.param _ _ as _), some (.param nm c as' ss) => beq (.param nm c as' ss) (r.getD .nothing) && structEqL as as'
+        | _, _ => false
+      if same then pure (res (Json.bool true))
+      else pure (res (Json.mkObj [("model", match r with | some t => Json.str (getName t) | none => Json.null),
+                                  ("model_none", Json.bool r.isNone)])))
   | "find.subd" => some (do
       let tbl ← parseTable j
       let B ← tyListAt tbl j "B"
